@@ -43,6 +43,7 @@ class SchemeRun:
         self.build_s = time.time() - t0
         self.levels, self.missing_lows, self.table, self.order = level_table()
         self.replay_exe = None
+        self.k_fallback = []
         self.with_ref = with_ref
         log("[%s] scheme harness built in %.1fs (%d units, %d with reference)" % (cid, self.build_s, len(self.units), sum(u["has_ref"] for u in self.units)))
 
@@ -65,9 +66,26 @@ class SchemeRun:
         return cmds
 
     def run(self, cmds, timeout=None):
-        timeout = timeout or (600 if self.tier == "quick" else 3000)
+        """hard solver budget per job (600 s).  Thorough tier: a unit/level that does not finish at the thorough K within the
+        budget (measured: Sm150low level 1194 at K=4 does not finish in 50 min, 0.75 s at K=2) is re-run at the quick K;
+        the units decided at the smaller bound are listed in the evidence (k_fallback), never counted at the larger one."""
+        timeout = timeout or 600
         t0 = time.time()
         res = vlib.run_jsonl(cmds, timeout=timeout)
+        if self.tier != "quick":
+            redo = [i for i, r in enumerate(res) if r["timed_out"]]
+            if redo:
+                qk = "2"   # the quick tier's bound
+                cmds2 = []
+                for i in redo:
+                    c = list(cmds[i])
+                    if len(c) > 3 and c[3].isdigit():
+                        c[3] = qk
+                    cmds2.append(c)
+                res2 = vlib.run_jsonl(cmds2, timeout=timeout)
+                for i, r in zip(redo, res2):
+                    self.k_fallback.append({"job": cmds[i][1:], "decided_at_K": int(qk) if not r["timed_out"] else None})
+                    res[i] = r
         self.run_s = time.time() - t0
         return res
 
